@@ -141,7 +141,7 @@ def compare(case, o):
     return res
 
 
-def main_for(prop, doc_level="exploration"):
+def main_for(prop, doc_level="exploration", extra=None):
     c = Check(prop)
     c.level = doc_level
     c.assumptions += ["abstract programs over the names {a, b, h, U, pi} in every role; expressions are literals, identifier uses and measurements",
@@ -176,4 +176,6 @@ def main_for(prop, doc_level="exploration"):
                   "skipped_unparsable": tool, **stats})
     for i in (3, len(cases) // 2, len(cases) - 2):
         c.sample({"program": outs[i]["text"], "predicted_diagnostics": cases[i]["diags"]})
+    if extra:
+        extra(c)
     c.finish()
